@@ -26,6 +26,8 @@ def main():
     for j in jobs:
         r = {"exc": None}
         try:
+            if os.path.dirname(j["fname"]):
+                os.makedirs(os.path.dirname(j["fname"]), exist_ok=True)
             with open(j["fname"], "w", newline="", encoding="utf-8") as fh:
                 csv.writer(fh).writerows(j["rows"])
             if j["how"] == "group":
